@@ -7,7 +7,7 @@ import time
 from .sir import AnalysisBroken
 
 VERIF = os.path.dirname(os.path.dirname(os.path.abspath(__file__)))
-EVIDENCE = os.path.join(VERIF, "evidence")
+EVIDENCE = os.environ.get("FSVERIF_EVIDENCE", os.path.join(VERIF, "evidence"))
 KNOWN = os.path.join(VERIF, "known_findings.json")
 
 
